@@ -286,6 +286,18 @@ mod mapprobe {
   }
   macro_rules! by_key { ($kt:expr, $f:ident, $($a:expr),*) => { match $kt { 1 => $f::<K1>($($a),*), 2 => $f::<K2>($($a),*), _ => $f::<K3>($($a),*) } } }
 
+  // key type 6: the VALUE type has an equality coarser than identity (all payloads of one decade are `==`): what a read returns is
+  // the value most recently stored, not merely one that is equal to it
+  #[derive(Clone, PartialEq, Eq, Hash, Debug)] pub struct K6(pub u32);
+  #[derive(Clone, Debug)] pub struct Coarse(pub i64);
+  impl PartialEq for Coarse { fn eq(&self, o: &Self) -> bool { self.0 / 10 == o.0 / 10 } }
+  impl Eq for Coarse {}
+  impl MapKey for K6 { type Value = Coarse; }
+  fn read6(pie: &mut Pie<()>, k: u32) -> Option<i64> { K6(k).read(pie.resource_state_mut::<K6>()).unwrap().map(|c| c.0) }
+  fn insert6(pie: &mut Pie<()>, k: u32, v: i64) { let key = K6(k); let mut w = key.write(pie.resource_state_mut::<K6>()).unwrap(); w.insert(Coarse(v)); }
+  fn remove6(pie: &mut Pie<()>, k: u32) { let key = K6(k); let mut w = key.write(pie.resource_state_mut::<K6>()).unwrap(); if let Entry::Occupied(e) = w.entry() { e.remove(); } }
+  fn direct6(pie: &mut Pie<()>, k: u32, v: i64) { pie.resource_state_mut::<K6>().get_global_map_mut().insert(K6(k), Coarse(v)); }
+
   // ---- the object-valued maps (values Box<dyn MapValueObj>, compared through EqObj::eq_any): values of different concrete
   // types with equal fields, and zero-sized values / keys of different types.  A value is the code  type*100 + payload.
   #[derive(Clone, PartialEq, Eq)] pub struct VI(pub i64);
@@ -338,16 +350,16 @@ mod mapprobe {
           "D" => { let r: u32 = t.num(); let s: u32 = t.num(); writeln!(out, "d {}", by_res!(r, s, default_mut, &mut pie)).unwrap(); }
           "d" => { let r: u32 = t.num(); let s: u32 = t.num(); writeln!(out, "d {}", by_res!(r, s, default, &mut pie)).unwrap(); }
           "r" => { let kt: u32 = t.num(); let k: u32 = t.num();
-                   let v = if kt >= 4 { if kt == 4 { read_o(&mut pie, MapKeyToObj(k)) } else { read_o(&mut pie, okey5(k)) } } else { by_key!(kt, read, &mut pie, k) };
+                   let v = if kt == 6 { read6(&mut pie, k) } else if kt >= 4 { if kt == 4 { read_o(&mut pie, MapKeyToObj(k)) } else { read_o(&mut pie, okey5(k)) } } else { by_key!(kt, read, &mut pie, k) };
                    writeln!(out, "r {}", o(v)).unwrap(); }
           "w" => { let kt: u32 = t.num(); let k: u32 = t.num(); let v: i64 = t.num();
-                   if kt == 4 { insert_o(&mut pie, MapKeyToObj(k), v) } else if kt >= 5 { insert_o(&mut pie, okey5(k), v) } else { by_key!(kt, insert, &mut pie, k, v) }
+                   if kt == 6 { insert6(&mut pie, k, v) } else if kt == 4 { insert_o(&mut pie, MapKeyToObj(k), v) } else if kt >= 5 { insert_o(&mut pie, okey5(k), v) } else { by_key!(kt, insert, &mut pie, k, v) }
                    writeln!(out, "u").unwrap(); }
           "x" => { let kt: u32 = t.num(); let k: u32 = t.num();
-                   if kt == 4 { remove_o(&mut pie, MapKeyToObj(k)) } else if kt >= 5 { remove_o(&mut pie, okey5(k)) } else { by_key!(kt, remove, &mut pie, k) }
+                   if kt == 6 { remove6(&mut pie, k) } else if kt == 4 { remove_o(&mut pie, MapKeyToObj(k)) } else if kt >= 5 { remove_o(&mut pie, okey5(k)) } else { by_key!(kt, remove, &mut pie, k) }
                    writeln!(out, "u").unwrap(); }
           "i" => { let kt: u32 = t.num(); let k: u32 = t.num(); let v: i64 = t.num();
-                   if kt == 4 { direct_o(&mut pie, MapKeyToObj(k), v) } else if kt >= 5 { direct_o(&mut pie, okey5(k), v) } else { by_key!(kt, direct, &mut pie, k, v) }
+                   if kt == 6 { direct6(&mut pie, k, v) } else if kt == 4 { direct_o(&mut pie, MapKeyToObj(k), v) } else if kt >= 5 { direct_o(&mut pie, okey5(k), v) } else { by_key!(kt, direct, &mut pie, k, v) }
                    writeln!(out, "u").unwrap(); }
           "t" => { let slot: u32 = t.num(); let kt: u32 = t.num(); let k: u32 = t.num();
                    if kt >= 4 {
